@@ -35,9 +35,15 @@ def compile_expr(ast, klong):
 
 
 def is_compilable_value(val, klong):
-    """True if compiled code may be given val for a variable: a Python number or a backend array."""
+    """True if compiled code may be given val for a variable: a Python number or a numeric backend array.
+
+    Nested and mixed lists (object arrays) are left to the interpreter: NumPy compares them with the
+    truth value of each element, which flattens an inner list to one number.
+    """
     tv = type(val)
-    return tv is int or tv is float or isinstance(val, klong._backend.np.ndarray)
+    if tv is int or tv is float:
+        return True
+    return isinstance(val, klong._backend.np.ndarray) and val.dtype != object
 
 
 def run_compiled(compiled, klong):
